@@ -613,19 +613,23 @@ def laneletKidsC (P : Params) :=
       (Codec.pair (Codec.optional "stopLine" (stopLineE P)) (Codec.pair typesC (Codec.pair (usersC "userOneWay")
         (Codec.pair (usersC "userBidirectional") (Codec.pair (refsC "trafficSignRef") (refsC "trafficLightRef")))))))))))
 
+abbrev LaneletTuple := Int × Bound × Bound × List Int × List Int × Option Adj × Option Adj × Option StopLine × List String ×
+  List String × List String × List Int × List Int
+
+def laneletToTuple (l : Lanelet) : LaneletTuple :=
+  (l.id, l.left, l.right, l.pred, l.succ, l.adjL, l.adjR, l.stop, l.types, l.oneWay, l.bidir, l.signs, l.lights)
+
+/-- `LaneletFactory.create_from_xml_node` after the children are read: the stop line is completed from the bounds -/
+def laneletOfTuple (a : LaneletTuple) : Option Lanelet :=
+  match a with
+  | (id, left, right, pred, succ, adjL, adjR, stop, types, oneWay, bidir, signs, lights) =>
+    match completeStop left right stop with
+    | some stop' => some ⟨id, left, right, pred, succ, adjL, adjR, stop', types, oneWay, bidir, signs, lights⟩
+    | none => none
+
 def laneletE (P : Params) : ECodec Lanelet :=
-  (ECodec.attrKids "id" Prim.int (laneletKidsC P)).pmap
-    (fun l => (l.id, l.left, l.right, l.pred, l.succ, l.adjL, l.adjR, l.stop, l.types, l.oneWay, l.bidir, l.signs, l.lights))
-    (fun a => match a with
-      | (id, left, right, pred, succ, adjL, adjR, stop, types, oneWay, bidir, signs, lights) =>
-        match completeStop left right stop with
-        | some stop' => some ⟨id, left, right, pred, succ, adjL, adjR, stop', types, oneWay, bidir, signs, lights⟩
-        | none => none)
-    (fun l =>
-      let n := (laneletKidsC P).norm (l.left, l.right, l.pred, l.succ, l.adjL, l.adjR, l.stop, l.types, l.oneWay, l.bidir, l.signs, l.lights)
-      match n with
-      | (left, right, pred, succ, adjL, adjR, stop, types, oneWay, bidir, signs, lights) =>
-        ⟨l.id, left, right, pred, succ, adjL, adjR, (completeStop left right stop).getD stop, types, oneWay, bidir, signs, lights⟩)
+  (ECodec.attrKids "id" Prim.int (laneletKidsC P)).pmap laneletToTuple laneletOfTuple
+    (fun l => (laneletOfTuple ((ECodec.attrKids "id" Prim.int (laneletKidsC P)).norm (laneletToTuple l))).getD l)
     (fun l => ∀ sl, l.stop = some sl → sl.pts = none → l.left.pts ≠ [] ∧ l.right.pts ≠ [])
 
 /-! ## traffic signs and lights -/
